@@ -628,3 +628,489 @@ theorem retry_publish {chk : Nat → Nat → Bool} {s s' : State} (hI : Inv chk 
 
 end SC
 end Woodpile.Abt
+
+/-! ## Track abt2: statement-strength additions (claim audit gaps 7, 10, 18) -/
+
+namespace Woodpile.Abt.SC
+
+/-- `retry_publish` plus: the sequence number the failed iteration was based on is not older
+than the snapshot's start, so the newer one (`sq + 1 ..= mem seq`) was published after the
+snapshot began; a retry does not move `start`. -/
+theorem retry_publish_during {chk : Nat → Nat → Bool} {s s' : State} (hI : Inv chk s) (t ts : Nat)
+    (hpc : (s.thr t).pc = .sSeq2) (hs : step chk s (.run t ts) = some s') (hretry : (s'.thr t).pc = .sV) :
+    s.start t ≤ (s.thr t).sq ∧ (s.thr t).sq < s.mem .seq ∧ s.start t + 1 < s.hist.length ∧
+    (s'.thr t).sq = s.mem .seq ∧ s'.start t = s.start t := by
+  have hrd := hI.reader t
+  have hlen := hI.len
+  obtain ⟨h1, _, h3⟩ := retry_publish hI t ts hpc hs hretry
+  simp only [RInv, hpc] at hrd
+  refine ⟨hrd.1, h1, by omega, h3, ?_⟩
+  simp only [step] at hs
+  generalize hth : s.thr t = th at hpc hs
+  obtain ⟨pc, ub, uv, sq, bits, base⟩ := th
+  simp at hpc; subst hpc
+  simp only [Local.next] at hs
+  simp at hs; subst hs; rfl
+
+end Woodpile.Abt.SC
+
+/-! ### Completed calls: the generic bookkeeping layer (gap 7) -/
+namespace Woodpile.Abt
+
+/-- One step of a thread's program: the local state after consuming the result of its next access. -/
+inductive Local.Succ (chk : Nat → Nat → Bool) (th : Local) : Local → Prop
+  | load (l : Loc) (o : Ord) (val : Nat) : th.next = .load l o → Local.Succ chk th (th.feedLoad chk val)
+  | lock (r : LockRes) : th.next = .lock ∨ th.next = .tryLock → Local.Succ chk th (th.feedLock r)
+  | unit : (∀ l o, th.next ≠ .load l o) → th.next ≠ .lock → th.next ≠ .tryLock → th.next ≠ .none →
+      Local.Succ chk th th.feedUnit
+
+/-- The (non-terminal) program counters each operation's program visits. -/
+def OpPc : Op → Pc → Bool
+  | .snapshot, pc => pc.inSnap
+  | .update _ _, pc =>
+    match pc with
+    | .uLock | .uClear | .uUnlock | .aSeq | .aV | .aB | .aStB | .aStV | .aStSeq | .aUnlock _ | .aUnlockPanic => true
+    | _ => false
+  | .tryUpdate _ _, pc =>
+    match pc with
+    | .tTry | .tClear | .tUnlock | .aSeq | .aV | .aB | .aStB | .aStV | .aStSeq | .aUnlock _ | .aUnlockPanic => true
+    | _ => false
+
+/-- The locals hold the call's arguments; the panic path is entered only with an invalid pair. -/
+def ArgsOK (chk : Nat → Nat → Bool) : Op → Local → Prop
+  | .snapshot, _ => True
+  | .update b v, th => th.ub = b ∧ th.uv = v ∧ (th.pc = .aUnlockPanic → chk b v = false)
+  | .tryUpdate b v, th => th.ub = b ∧ th.uv = v ∧ (th.pc = .aUnlockPanic → chk b v = false)
+
+/-- How an operation can end. -/
+def EndOK (chk : Nat → Nat → Bool) (op : Op) (th th' : Local) : Prop :=
+  match op with
+  | .snapshot => th'.pc = .retSnap ∨ th'.pc = .sPanic
+  | .update b v => (∃ r, th'.pc = .retBool r ∧ th.pc = .aUnlock r) ∨ (th'.pc = .aPanic ∧ chk b v = false)
+  | .tryUpdate b v => (th'.pc = .retBool true ∧ th.pc = .aUnlock true) ∨ th'.pc = .retBool false ∨
+      (th'.pc = .aPanic ∧ chk b v = false)
+
+theorem succ_op {chk : Nat → Nat → Bool} {op : Op} {th th' : Local} (hpc : OpPc op th.pc = true)
+    (ha : ArgsOK chk op th) (h : Local.Succ chk th th') :
+    (OpPc op th'.pc = true ∧ ArgsOK chk op th') ∨ (th'.pc.terminal = true ∧ EndOK chk op th th') := by
+  obtain ⟨pc, ub, uv, sq, bits, base⟩ := th
+  cases op with
+  | snapshot =>
+    cases pc <;> simp [OpPc, Pc.inSnap] at hpc <;>
+    ( cases h with
+      | load l o val hn =>
+        simp only [Local.feedLoad]
+        (repeat' split) <;> simp [OpPc, Pc.inSnap, ArgsOK, EndOK, Pc.terminal]
+      | lock r hn => simp [Local.next] at hn
+      | unit h1 h2 h3 h4 => simp [Local.next] at h1 )
+  | update b v =>
+    simp only [ArgsOK] at ha
+    obtain ⟨ha1, ha2, ha3⟩ := ha
+    subst ha1 ha2
+    cases pc <;> simp [OpPc] at hpc <;>
+    ( cases h with
+      | load l o val hn =>
+        first
+        | (simp [Local.next] at hn; done)
+        | (simp only [Local.feedLoad]
+           (repeat' split) <;> simp_all [OpPc, ArgsOK, EndOK, Pc.terminal])
+      | lock r hn =>
+        first
+        | (simp [Local.next] at hn; done)
+        | (cases r <;> simp_all [Local.feedLock, OpPc, ArgsOK, EndOK, Pc.terminal])
+      | unit h1 h2 h3 h4 =>
+        first
+        | (simp [Local.next] at h1; done)
+        | (simp [Local.next] at h2; done)
+        | (simp [Local.next] at h3; done)
+        | (simp_all [Local.feedUnit, OpPc, ArgsOK, EndOK, Pc.terminal]) )
+  | tryUpdate b v =>
+    simp only [ArgsOK] at ha
+    obtain ⟨ha1, ha2, ha3⟩ := ha
+    subst ha1 ha2
+    cases pc <;> simp [OpPc] at hpc <;>
+    ( cases h with
+      | load l o val hn =>
+        first
+        | (simp [Local.next] at hn; done)
+        | (simp only [Local.feedLoad]
+           (repeat' split) <;> simp_all [OpPc, ArgsOK, EndOK, Pc.terminal])
+      | lock r hn =>
+        first
+        | (simp [Local.next] at hn; done)
+        | (cases r <;> simp_all [Local.feedLock, OpPc, ArgsOK, EndOK, Pc.terminal])
+      | unit h1 h2 h3 h4 =>
+        first
+        | (simp [Local.next] at h1; done)
+        | (simp [Local.next] at h2; done)
+        | (simp [Local.next] at h3; done)
+        | (simp_all [Local.feedUnit, OpPc, ArgsOK, EndOK, Pc.terminal]) )
+
+
+
+/-- What a writer knows once `advance_once` has decided, in terms of the history and the
+thread's own view of `sequence` (`vseq`): an accepted call's pair is published at an index its
+view covers; an ignored call has seen a published pair with a newer base time. -/
+def UInv (hist : List (Nat × Nat)) (vseq : Nat) (th : Local) : Prop :=
+  match th.pc with
+  | .aUnlock true | .retBool true => ∃ j, j ≤ vseq ∧ hist[j]? = some (th.ub, th.uv)
+  | .aUnlock false => ∃ j p, j ≤ vseq ∧ hist[j]? = some p ∧ th.ub < p.1
+  | _ => True
+
+theorem getElem?_append_some {α : Type} {l : List α} {k : Nat} {p : α} (y : List α) (hk : l[k]? = some p) :
+    (l ++ y)[k]? = some p := by
+  have : k < l.length := (List.getElem?_eq_some_iff.mp hk).1
+  rw [List.getElem?_append_left this]; exact hk
+
+theorem UInv_mono {hist y : List (Nat × Nat)} {vseq vseq' : Nat} {th : Local} (hv : vseq ≤ vseq')
+    (h : UInv hist vseq th) : UInv (hist ++ y) vseq' th := by
+  unfold UInv at *
+  split at h
+  · obtain ⟨j, h1, h2⟩ := h; exact ⟨j, by omega, getElem?_append_some _ h2⟩
+  · obtain ⟨j, h1, h2⟩ := h; exact ⟨j, by omega, getElem?_append_some _ h2⟩
+  · obtain ⟨j, p, h1, h2, h3⟩ := h; exact ⟨j, p, by omega, getElem?_append_some _ h2, h3⟩
+  · trivial
+
+namespace Mach
+
+/-- The facts about a machine the call bookkeeping rests on (`ok` = its inductive invariant;
+`G` = "every thread's view of `sequence` is the global one", true on SC only). -/
+structure Laws (M : Mach) (chk : Nat → Nat → Bool) (ok : M.σ → Prop) (G : Prop) : Prop where
+  ok_step : ∀ {s s' : M.σ} {l : Label}, ok s → M.step s l = some s' → ok s'
+  others : ∀ {s s' : M.σ} {l : Label}, ok s → M.step s l = some s' → ∀ t', t' ≠ actor l →
+    M.loc s' t' = M.loc s t' ∧ M.startOf s' t' = M.startOf s t'
+  vmono : ∀ {s s' : M.σ} {l : Label}, ok s → M.step s l = some s' → ∀ t', M.vseq s t' ≤ M.vseq s' t'
+  hist_ext : ∀ {s s' : M.σ} {l : Label}, ok s → M.step s l = some s' → ∃ y, M.hist s' = M.hist s ++ y
+  sync : ∀ {s s' : M.σ} {t u : Nat}, ok s → M.step s (.sync t u) = some s' →
+    M.loc s' t = M.loc s t ∧ M.startOf s' t = M.startOf s t ∧ M.vseq s u ≤ M.vseq s' t
+  start : ∀ {s s' : M.σ} {t : Nat} {op : Op}, ok s → M.step s (.start t op) = some s' →
+    M.loc s' t = (M.loc s t).start op ∧ M.startOf s' t = M.vseq s t ∧ M.vseq s' t = M.vseq s t ∧
+    (M.loc s t).pc.terminal = true
+  run : ∀ {s s' : M.σ} {t ts : Nat}, ok s → M.step s (.run t ts) = some s' →
+    Local.Succ chk (M.loc s t) (M.loc s' t) ∧ M.startOf s' t = M.startOf s t
+  snapRet : ∀ {s : M.σ} {t : Nat}, ok s → (M.loc s t).pc = .retSnap →
+    ∃ k, M.startOf s t ≤ k ∧ k ≤ M.vseq s t ∧ (M.hist s)[k]? = some ((M.loc s t).base, (M.loc s t).bits)
+  noPanic : ∀ {s : M.σ} {t : Nat}, ok s → (M.loc s t).pc ≠ .sPanic
+  uinv : ∀ {s : M.σ} {t : Nat}, ok s → UInv (M.hist s) (M.vseq s t) (M.loc s t)
+  sorted : ∀ {s : M.σ}, ok s → (M.hist s).Pairwise (fun a b => a.1 ≤ b.1)
+  global : G → ∀ (s : M.σ) (t u : Nat), M.vseq s t = M.vseq s u
+
+/-- What is known about a completed call, in terms of the (append-only) history:
+* `snapshot` returned a pair published with a sequence number between the caller's view of
+  `sequence` at the start and at the return of the call (and never panics);
+* `update(b, v)` that returned: some pair with base time ≥ `b` is published at an index its view
+  at return covers - its own pair if it was accepted, a strictly newer one if it was ignored;
+* `try_update(b, v)` that returned `true`: its own pair is published at such an index;
+* a call that panicked was given an invalid pair. -/
+def RecOK (chk : Nat → Nat → Bool) (hist : List (Nat × Nat)) (R : CallRec) : Prop :=
+  R.vStart ≤ R.vRet ∧ R.tStart < R.tRet ∧
+  match R.op, R.res with
+  | .snapshot, .snap b v => ∃ k, R.vStart ≤ k ∧ k ≤ R.vRet ∧ hist[k]? = some (b, v)
+  | .snapshot, _ => False
+  | .update b v, .bool r => ∃ j p, j ≤ R.vRet ∧ hist[j]? = some p ∧ (if r then p = (b, v) else b < p.1)
+  | .update _ _, .snap _ _ => False
+  | .update b v, .panic => chk b v = false
+  | .tryUpdate b v, .bool true => ∃ j, j ≤ R.vRet ∧ hist[j]? = some (b, v)
+  | .tryUpdate _ _, .bool false => True
+  | .tryUpdate _ _, .snap _ _ => False
+  | .tryUpdate b v, .panic => chk b v = false
+
+theorem RecOK_ext {chk : Nat → Nat → Bool} {hist : List (Nat × Nat)} {R : CallRec} (y : List (Nat × Nat))
+    (h : RecOK chk hist R) : RecOK chk (hist ++ y) R := by
+  obtain ⟨h1, h2, h3⟩ := h
+  refine ⟨h1, h2, ?_⟩
+  split at h3
+  · obtain ⟨k, a, b, c⟩ := h3; exact ⟨k, a, b, getElem?_append_some _ c⟩
+  · exact h3
+  · obtain ⟨j, p, a, b, c⟩ := h3; exact ⟨j, p, a, getElem?_append_some _ b, c⟩
+  · exact h3
+  · exact h3
+  · obtain ⟨j, a, b⟩ := h3; exact ⟨j, a, getElem?_append_some _ b⟩
+  · exact h3
+  · exact h3
+  · exact h3
+
+/-- Per thread: no call in progress iff the pc is terminal; a call in progress is inside its
+own program with its own arguments, started before now, and every call that completed before
+it started (on the same thread; on SC: on any thread) is covered by its recorded start view.
+(`th`, `st`, `vs`: the thread's program state, recorded start view and current view.) -/
+def CurOK (chk : Nat → Nat → Bool) (G : Prop) (th : Local) (st vs clock : Nat) (done : List CallRec) (t : Nat) :
+    Option (Op × Nat) → Prop
+  | none => th.pc.terminal = true
+  | some (op, t0) =>
+    OpPc op th.pc = true ∧ ArgsOK chk op th ∧ t0 < clock ∧ st ≤ vs ∧
+    ∀ R ∈ done, (R.tid = t ∨ G) → R.tRet < t0 → R.vRet ≤ st
+
+structure GInv (M : Mach) (chk : Nat → Nat → Bool) (ok : M.σ → Prop) (G : Prop) (g : M.GState) : Prop where
+  ok : ok g.s
+  recs : ∀ R ∈ g.done, RecOK chk (M.hist g.s) R ∧ R.tRet < g.clock ∧ ∀ t, (R.tid = t ∨ G) → R.vRet ≤ M.vseq g.s t
+  cur : ∀ t, CurOK chk G (M.loc g.s t) (M.startOf g.s t) (M.vseq g.s t) g.clock g.done t (g.cur t)
+  pairs : ∀ R1 ∈ g.done, ∀ R2 ∈ g.done, (R1.tid = R2.tid ∨ G) → R1.tRet < R2.tStart → R1.vRet ≤ R2.vStart
+
+theorem CurOK_mono {chk : Nat → Nat → Bool} {G : Prop} {th : Local} {st vs vs' clock clock' : Nat}
+    {done : List CallRec} {t : Nat} {c : Option (Op × Nat)} (hv : vs ≤ vs') (hc : clock ≤ clock')
+    (h : CurOK chk G th st vs clock done t c) : CurOK chk G th st vs' clock' done t c := by
+  cases c with
+  | none => exact h
+  | some x =>
+    obtain ⟨op, t0⟩ := x
+    obtain ⟨a, b, c, d, e⟩ := h
+    exact ⟨a, b, by omega, by omega, e⟩
+
+theorem CurOK_cons {chk : Nat → Nat → Bool} {G : Prop} {th : Local} {st vs clock : Nat}
+    {done : List CallRec} {t : Nat} {c : Option (Op × Nat)} (R : CallRec) (hR : clock ≤ R.tRet + 1)
+    (h : CurOK chk G th st vs clock done t c) : CurOK chk G th st vs clock (R :: done) t c := by
+  cases c with
+  | none => exact h
+  | some x =>
+    obtain ⟨op, t0⟩ := x
+    obtain ⟨a, b, c, d, e⟩ := h
+    refine ⟨a, b, c, d, ?_⟩
+    intro R' hR' h1 h2
+    rcases List.mem_cons.mp hR' with rfl | hm
+    · omega
+    · exact e R' hm h1 h2
+
+theorem terminal_not_op {op : Op} {pc : Pc} (h : OpPc op pc = true) : pc.terminal = false := by
+  cases op <;> cases pc <;> simp [OpPc, Pc.inSnap, Pc.terminal] at h ⊢
+
+theorem succ_not_terminal {chk : Nat → Nat → Bool} {th th' : Local} (h : Local.Succ chk th th') :
+    th.pc.terminal = false := by
+  obtain ⟨pc, ub, uv, sq, bits, base⟩ := th
+  cases h with
+  | load l o val hn => cases pc <;> simp [Local.next] at hn <;> rfl
+  | lock r hn => cases pc <;> simp [Local.next] at hn <;> rfl
+  | unit h1 h2 h3 h4 => cases pc <;> simp [Local.next] at h4 <;> rfl
+
+theorem start_op (chk : Nat → Nat → Bool) (th : Local) (op : Op) :
+    OpPc op (th.start op).pc = true ∧ ArgsOK chk op (th.start op) := by
+  cases op <;> simp [Local.start, OpPc, ArgsOK, Pc.inSnap]
+
+
+theorem result_none {th : Local} (h : th.pc.terminal = false) : th.result = none := by
+  obtain ⟨pc, ub, uv, sq, bits, base⟩ := th
+  cases pc <;> simp [Pc.terminal] at h <;> rfl
+
+theorem ginv_step {M : Mach} {chk : Nat → Nat → Bool} {ok : M.σ → Prop} {G : Prop} (L : Laws M chk ok G)
+    {g : M.GState} {l : Label} {s' : M.σ} (hI : GInv M chk ok G g) (hs : M.step g.s l = some s') :
+    GInv M chk ok G (M.gnext g l s') := by
+  have hok' := L.ok_step hI.ok hs
+  obtain ⟨y, hy⟩ := L.hist_ext hI.ok hs
+  have hvm := L.vmono hI.ok hs
+  have hoth := L.others hI.ok hs
+  have hrec : ∀ R ∈ g.done, RecOK chk (M.hist s') R ∧ R.tRet < g.clock + 1 ∧
+      ∀ t, (R.tid = t ∨ G) → R.vRet ≤ M.vseq s' t := by
+    intro R hR
+    obtain ⟨a, b, c⟩ := hI.recs R hR
+    exact ⟨by rw [hy]; exact RecOK_ext y a, by omega, fun t ht => Nat.le_trans (c t ht) (hvm t)⟩
+  have hkeep : ∀ t', M.loc s' t' = M.loc g.s t' → M.startOf s' t' = M.startOf g.s t' →
+      CurOK chk G (M.loc s' t') (M.startOf s' t') (M.vseq s' t') (g.clock + 1) g.done t' (g.cur t') := by
+    intro t' h1 h2
+    rw [h1, h2]
+    exact CurOK_mono (hvm t') (by omega) (hI.cur t')
+  cases l with
+  | sync t u =>
+    obtain ⟨s1, s2, _⟩ := L.sync hI.ok hs
+    refine ⟨hok', hrec, ?_, hI.pairs⟩
+    intro t'
+    by_cases ht : t' = t
+    · subst ht; exact hkeep t' s1 s2
+    · exact hkeep t' (hoth t' ht).1 (hoth t' ht).2
+  | start t op =>
+    obtain ⟨s1, s2, s3, _⟩ := L.start hI.ok hs
+    refine ⟨hok', hrec, ?_, hI.pairs⟩
+    intro t'
+    simp only [gnext]
+    by_cases ht : t' = t
+    · subst ht
+      simp only [upd_same]
+      refine ⟨by rw [s1]; exact (start_op chk _ op).1, by rw [s1]; exact (start_op chk _ op).2, by omega,
+        by omega, ?_⟩
+      intro R hR h1 _
+      rw [s2]; exact (hI.recs R hR).2.2 t' h1
+    · rw [upd_ne _ _ _ ht]; exact hkeep t' (hoth t' ht).1 (hoth t' ht).2
+  | run t ts =>
+    obtain ⟨hsucc, hst⟩ := L.run hI.ok hs
+    have hct := hI.cur t
+    have hnt := succ_not_terminal hsucc
+    cases hc : g.cur t with
+    | none => rw [hc] at hct; simp only [CurOK] at hct; rw [hnt] at hct; cases hct
+    | some x =>
+      obtain ⟨op, t0⟩ := x
+      rw [hc] at hct
+      obtain ⟨c1, c2, c3, c4, c5⟩ := hct
+      rcases succ_op c1 c2 hsucc with ⟨d1, d2⟩ | ⟨d1, d2⟩
+      · -- still inside the operation
+        have hres : (M.loc s' t).result = none := result_none (terminal_not_op d1)
+        have hg : M.gnext g (.run t ts) s' = { s := s', clock := g.clock + 1, cur := g.cur, done := g.done } := by
+          simp only [gnext, hc, hres]
+        rw [hg]
+        refine ⟨hok', hrec, ?_, hI.pairs⟩
+        intro t'
+        by_cases ht : t' = t
+        · subst ht
+          show CurOK chk G (M.loc s' t') (M.startOf s' t') (M.vseq s' t') (g.clock + 1) g.done t' (g.cur t')
+          rw [hc, hst]
+          exact ⟨d1, d2, by omega, Nat.le_trans c4 (hvm t'), c5⟩
+        · exact hkeep t' (hoth t' ht).1 (hoth t' ht).2
+      · -- the operation completes with this step
+        have finish : ∀ r, (M.loc s' t).result = some r →
+            RecOK chk (M.hist s') (⟨t, op, M.startOf s' t, M.vseq s' t, t0, g.clock, r⟩ : CallRec) →
+            GInv M chk ok G (M.gnext g (.run t ts) s') := by
+          intro r hres hR
+          have hg : M.gnext g (.run t ts) s' = (⟨s', g.clock + 1, upd g.cur t none,
+              (⟨t, op, M.startOf s' t, M.vseq s' t, t0, g.clock, r⟩ : CallRec) :: g.done⟩ : M.GState) := by
+            simp only [gnext, hc, hres]
+          rw [hg]
+          refine ⟨hok', ?_, ?_, ?_⟩
+          · intro R hRm
+            rcases List.mem_cons.mp hRm with rfl | hm
+            · refine ⟨hR, by show g.clock < g.clock + 1; omega, ?_⟩
+              intro t' ht'
+              rcases ht' with h | h
+              · have h : t = t' := h
+                subst h; exact Nat.le_refl _
+              · show M.vseq s' t ≤ M.vseq s' t'
+                rw [L.global h s' t t']; exact Nat.le_refl _
+            · exact hrec R hm
+          · intro t'
+            by_cases ht : t' = t
+            · subst ht
+              show CurOK chk G _ _ _ _ _ t' (upd g.cur t' none t')
+              rw [upd_same]; exact d1
+            · show CurOK chk G _ _ _ _ _ t' (upd g.cur t none t')
+              rw [upd_ne _ _ _ ht]
+              exact CurOK_cons _ (Nat.le_refl (g.clock + 1)) (hkeep t' (hoth t' ht).1 (hoth t' ht).2)
+          · intro R1 h1 R2 h2 hsame hlt
+            rcases List.mem_cons.mp h1 with rfl | m1 <;> rcases List.mem_cons.mp h2 with rfl | m2
+            · have : g.clock < t0 := hlt
+              omega
+            · have : g.clock < R2.tStart := hlt
+              have a := (hI.recs R2 m2).1.2.1
+              have b := (hI.recs R2 m2).2.1
+              omega
+            · show R1.vRet ≤ M.startOf s' t
+              rw [hst]
+              exact c5 R1 m1 hsame hlt
+            · exact hI.pairs R1 m1 R2 m2 hsame hlt
+        have hvv : M.startOf s' t ≤ M.vseq s' t := by rw [hst]; exact Nat.le_trans c4 (hvm t)
+        have hU := L.uinv (t := t) hI.ok
+        cases op with
+        | snapshot =>
+          rcases d2 with hp | hp
+          · obtain ⟨k, k1, k2, k3⟩ := L.snapRet hok' hp
+            exact finish (.snap (M.loc s' t).base (M.loc s' t).bits) (by simp [Local.result, hp])
+              ⟨hvv, c3, k, k1, k2, k3⟩
+          · exact absurd hp (L.noPanic hok')
+        | update b v =>
+          simp only [ArgsOK] at c2
+          obtain ⟨a1, a2, _⟩ := c2
+          rcases d2 with ⟨r, hp, hq⟩ | ⟨hp, hchk⟩
+          · refine finish (.bool r) (by simp [Local.result, hp]) ⟨hvv, c3, ?_⟩
+            simp only [UInv, hq] at hU
+            cases r with
+            | true =>
+              obtain ⟨j, j1, j2⟩ := hU
+              exact ⟨j, (b, v), Nat.le_trans j1 (hvm t), by rw [hy, ← a1, ← a2]; exact getElem?_append_some _ j2,
+                by simp⟩
+            | false =>
+              obtain ⟨j, p, j1, j2, j3⟩ := hU
+              exact ⟨j, p, Nat.le_trans j1 (hvm t), by rw [hy]; exact getElem?_append_some _ j2,
+                by simp; omega⟩
+          · exact finish .panic (by simp [Local.result, hp]) ⟨hvv, c3, hchk⟩
+        | tryUpdate b v =>
+          simp only [ArgsOK] at c2
+          obtain ⟨a1, a2, _⟩ := c2
+          rcases d2 with ⟨hp, hq⟩ | hp | ⟨hp, hchk⟩
+          · refine finish (.bool true) (by simp [Local.result, hp]) ⟨hvv, c3, ?_⟩
+            simp only [UInv, hq] at hU
+            obtain ⟨j, j1, j2⟩ := hU
+            exact ⟨j, Nat.le_trans j1 (hvm t), by rw [hy, ← a1, ← a2]; exact getElem?_append_some _ j2⟩
+          · exact finish (.bool false) (by simp [Local.result, hp]) ⟨hvv, c3, trivial⟩
+          · exact finish .panic (by simp [Local.result, hp]) ⟨hvv, c3, hchk⟩
+
+
+theorem ginv_init {M : Mach} {chk : Nat → Nat → Bool} {ok : M.σ → Prop} {G : Prop} {s0 : M.σ} (h0 : ok s0)
+    (hidle : ∀ t, (M.loc s0 t).pc.terminal = true) : GInv M chk ok G (M.ginit s0) :=
+  { ok := h0
+    recs := by intro R hR; simp [ginit] at hR
+    cur := by intro t; exact hidle t
+    pairs := by intro R hR; simp [ginit] at hR }
+
+theorem ginv_run {M : Mach} {chk : Nat → Nat → Bool} {ok : M.σ → Prop} {G : Prop} (L : Laws M chk ok G)
+    (ls : List Label) : ∀ (g g' : M.GState), GInv M chk ok G g → M.grun g ls = some g' → GInv M chk ok G g' := by
+  induction ls with
+  | nil => intro g g' hI h; simp [grun] at h; subst h; exact hI
+  | cons l ls ih =>
+    intro g g' hI h
+    simp only [grun, gstep] at h
+    cases hst : M.step g.s l with
+    | none => simp [hst] at h
+    | some s1 => simp only [hst] at h; exact ih _ g' (ginv_step L hI hst) h
+
+@[simp] theorem gnext_s (M : Mach) (g : M.GState) (l : Label) (s1 : M.σ) : (M.gnext g l s1).s = s1 := by
+  cases l <;> simp only [gnext]
+  split <;> rfl
+
+/-- Erasing the bookkeeping gives a run of the machine itself ... -/
+theorem grun_erase (M : Mach) (ls : List Label) : ∀ (g g' : M.GState), M.grun g ls = some g' →
+    M.run g.s ls = some g'.s := by
+  induction ls with
+  | nil => intro g g' h; simp [grun] at h; subst h; rfl
+  | cons l ls ih =>
+    intro g g' h
+    simp only [grun, gstep] at h
+    simp only [run]
+    cases hst : M.step g.s l with
+    | none => simp [hst] at h
+    | some s1 =>
+      simp only [hst] at h
+      have := ih _ g' h
+      rw [gnext_s] at this
+      exact this
+
+/-- ... and every run of the machine carries bookkeeping: the ghost layer restricts nothing. -/
+theorem grun_lift (M : Mach) (ls : List Label) : ∀ (g : M.GState) (s' : M.σ), M.run g.s ls = some s' →
+    ∃ g', M.grun g ls = some g' ∧ g'.s = s' := by
+  induction ls with
+  | nil => intro g s' h; simp [run] at h; exact ⟨g, rfl, h⟩
+  | cons l ls ih =>
+    intro g s' h
+    simp only [run] at h
+    cases hst : M.step g.s l with
+    | none => simp [hst] at h
+    | some s1 =>
+      simp only [hst] at h
+      have hs1 : (M.gnext g l s1).s = s1 := gnext_s M g l s1
+      obtain ⟨g', h1, h2⟩ := ih (M.gnext g l s1) s' (by rw [hs1]; exact h)
+      exact ⟨g', by simp only [grun, gstep, hst]; exact h1, h2⟩
+
+/-- End to end: a completed `update(b, v)` (it returned, i.e. did not panic on an invalid pair), or
+a `try_update(b, v)` that returned `true`, whose return the start of a `snapshot` call has seen
+(`U.vRet ≤ S.vStart`: the snapshot's caller's view of `sequence` at its start includes the
+updater's view at its return) is reflected by the snapshot: it returns a base time ≥ `b`. -/
+theorem update_then_snapshot {M : Mach} {chk : Nat → Nat → Bool} {ok : M.σ → Prop} {G : Prop} (L : Laws M chk ok G)
+    {g : M.GState} (hI : GInv M chk ok G g) (U S : CallRec) (hU : U ∈ g.done) (hS : S ∈ g.done) (b v sb sv : Nat)
+    (hUop : (U.op = .update b v ∧ ∃ r, U.res = .bool r) ∨ (U.op = .tryUpdate b v ∧ U.res = .bool true))
+    (hSop : S.op = .snapshot) (hSres : S.res = .snap sb sv) (hb : U.vRet ≤ S.vStart) : b ≤ sb := by
+  obtain ⟨_, _, hs⟩ := (hI.recs S hS).1
+  simp only [hSop, hSres] at hs
+  obtain ⟨k, k1, _, k3⟩ := hs
+  obtain ⟨_, _, hu⟩ := (hI.recs U hU).1
+  have key : ∃ j p, j ≤ U.vRet ∧ (M.hist g.s)[j]? = some p ∧ b ≤ p.1 := by
+    rcases hUop with ⟨h1, r, h2⟩ | ⟨h1, h2⟩
+    · simp only [h1, h2] at hu
+      obtain ⟨j, p, j1, j2, j3⟩ := hu
+      refine ⟨j, p, j1, j2, ?_⟩
+      cases r <;> simp at j3
+      · omega
+      · rw [j3]; exact Nat.le_refl _
+    · simp only [h1, h2] at hu
+      obtain ⟨j, j1, j2⟩ := hu
+      exact ⟨j, (b, v), j1, j2, Nat.le_refl _⟩
+  obtain ⟨j, p, j1, j2, j3⟩ := key
+  have := sorted_get (L.sorted hI.ok) j2 k3 (by omega)
+  exact Nat.le_trans j3 this
+
+end Mach
+end Woodpile.Abt
